@@ -1,22 +1,23 @@
 import AlatorVerif.Model.Cal
+import AlatorVerif.Driver.Util
 namespace Drv.Sched
-open PC
+open PC Drv
 
-/-- the schedule evaluated from the date of the day (streaming form; equal to `shouldTrade` by `dateOf_add`) -/
-def shouldTradeFrom (x : Date) : Bool :=
-  if x.d < 28 - 7 then false
-  else if weekend x then false
-  else
-    let chk (i : Nat) : Bool := let o := adv i x; if weekend o then false else o.m == x.m
-    if chk 1 then false else if chk 2 then false else if chk 3 then false else true
+/-- state: the day number reached and its date (days are requested in non-decreasing order) -/
+structure St where
+  n : Nat := 0
+  x : Date := epoch
 
-partial def loop (n : Nat) (last : Nat) (x : Date) : IO Unit := do
-  if n > last then return ()
-  IO.println s!"{n} {x.y} {x.m} {x.d} {x.wd} {shouldTradeFrom x}"
-  loop (n + 1) last (next x)
+def step (s : St) (ts : List String) : St × String :=
+  match ts with
+  | ["D", m] =>
+    let m := m.toNat!
+    if m < s.n then (s, "bad-op days-must-be-non-decreasing")
+    else
+      let x := adv (m - s.n) s.x
+      ({ n := m, x := x }, s!"C {x.y} {x.m} {x.d} {x.wd} ; A {shouldTradeFrom x} ; T true ; DEF {defaultSchedule m}")
+  | _ => (s, "bad-op")
 
-def main (args : List String) : IO Unit := do
-  let last := (args.headD "84000").toNat!
-  loop 0 last epoch
+def main (_ : List String) : IO Unit := do loopWith (← IO.getStdin) ({} : St) step {}
 
 end Drv.Sched
